@@ -309,9 +309,12 @@ class Projector:
                 t = "(EGoAway %s %d %s)" % (nlist(a[3:]), a[1], streamstate.INITIATORS[a[2]])
             else:
                 t = "(EIo %d %s)" % (a[1], "(Some %s)" % nlist(a[3:]) if a[2] else "None")
-            self.text("(LHandleError %s)" % t)
+            failed = [k.args[0] for k in fl if k.name == "prio.drop_promised"]
+            self.text("(LHandleError %s %s)" % (t, nlist(failed)))
         elif name == "disp.recv_eof":
-            self.text("(LRecvEof %s)" % nlist([k.args[0] for k in fl if k.name == "stream.set_reset"]))
+            failed = [k.args[0] for k in fl if k.name == "prio.drop_promised"]
+            # set_reset is also what clear_queue does to a promised record: those are not relabelled scheduled resets
+            self.text("(LRecvEof %s %s)" % (nlist([k.args[0] for k in fl if k.name == "stream.set_reset" and k.args[0] not in failed]), nlist(failed)))
         elif name == "disp.poll2_reset":
             sid, code = a[0:2]
             orec, ids, d = disp_of(a[2:])
